@@ -20,6 +20,38 @@ ASSUMPTIONS = ['mmh3_ch not runnable (mmh3 absent)',
                'the same history, is reported as a violation']
 
 
+_top = {}
+
+
+def top_collision_nodes(hash_type):
+  """Two or three nodes (found with the reference hash) that each own a replica on one of the last ring positions."""
+  if hash_type in _top:
+    return _top[hash_type]
+  from vlib.refs import ring as refring
+  found = {}
+  out = []
+  if hash_type == 'fnv1a_ch':
+    # the replica key is '<i>-<instance>': hosts sharing an instance name collide on every replica
+    for k in range(20000):
+      inst = 'i%d' % k
+      if any(refring.position(refring.replica_key(('h', inst), i, hash_type), hash_type) >= 65534 for i in range(refring.REPLICAS)):
+        out = [('10.1.0.1', inst), ('10.1.0.2', inst), ('10.1.0.3', inst), ('10.1.0.4', 'other')]
+        break
+  else:
+    for k in range(30000):
+      node = ('10.%d.%d.%d' % (k // 65536, (k // 256) % 256, k % 256), None if k % 2 else 'a')
+      for i in range(refring.REPLICAS):
+        p = refring.position(refring.replica_key(node, i, hash_type), hash_type)
+        if p >= 65534:
+          found.setdefault(p, []).append(node)
+      best = [v for v in found.values() if len(v) >= 2]
+      if best:
+        out = best[0][:3] + [('10.9.9.9', 'z')]
+        break
+  _top[hash_type] = out
+  return out
+
+
 def node_lists(tier, seed, hash_type):
   r = gen.rng(seed, 'C06', hash_type)
   lists = []
@@ -27,6 +59,11 @@ def node_lists(tier, seed, hash_type):
   lists.append([('10.0.0.1', 'a'), ('10.0.0.2', 'a'), ('10.0.0.3', 'b')])      # same instance: fnv1a collides on all replicas
   lists.append([('10.0.0.1', None), ('10.0.0.2', None)])
   lists.append([('h1', 'a'), ('h1', 'b'), ('h2', 'a'), ('h2', 'b'), ('h3', 'a'), ('h3', 'b'), ('h4', 'a'), ('h4', 'b')])
+  # replicas colliding on the very last ring positions (65533..65535): the published algorithm parks the bumped entry past
+  # the end of the 16-bit key space
+  top = top_collision_nodes(hash_type)
+  if top:
+    lists.append(top)
   n = 2 if tier == 'quick' else 8
   for i in range(n):
     k = r.choice([2, 3, 4, 5, 6, 8])
